@@ -14,7 +14,7 @@ from .. import gen
 from ..common import (Harness, begin_run, install_source_shim, model_apply,
                       ref_outcomes, source_shim)
 from ..rng import run_rng, stable_hash, weighted
-from ..trace import HOT_FUNCS, Sim
+from ..trace import HOT_FUNCS, Sim, SimRLock
 from ..world import SimInterrupt, World, is_dispatch_verdict
 
 ID = "C18"
@@ -259,6 +259,7 @@ def _target_thunk(h, fam):
 
 def setup(fam):
     begin_run()
+    SimRLock.reset_all()
     install_source_shim()
     h = Harness(fam["spec"], fam["regs"])
     for op in fam["pre"]:
@@ -361,8 +362,19 @@ def execute(scen):
         d.update(detail)
         return d
 
+    # ---- clause 0: no library lock may stay held once the faulted operation is over ------------
+    held = [lk for lk in SimRLock.registry if lk.owner is not None]
+    if held:
+        violation = viol("after-fault: a library lock is still held after the failed operation "
+                         "(any other thread's next call would block for ever)",
+                         locks_held=len(held), symptom="lock-leaked")
+        for lk in held:
+            lk.owner, lk.count = None, 0
+
     # ---- clause 1: probes right after the faulted operation ---------------------
-    if offender is not None:
+    if violation is not None:
+        pass
+    elif offender is not None:
         # the method set contains an invalid method (before and/or after the target)
         valid_sets = [without(before, offender)]
         refs = [ref_outcomes(spec, s, corpus, key) for s in valid_sets]
